@@ -23,6 +23,9 @@ Definition type_tok (t : token) : bool :=
 (* the `throws` keyword does not occur inside a condition *)
 Definition no_throws_kw (ts : list token) : Prop := Forall (fun t => kw_is t s_throws = false) ts.
 
+(* a word of a declaration line: a name or a keyword *)
+Definition word_tok (t : token) : bool := is_name t || is_keyword t.
+
 (* words that may precede a header: names and keywords, but none of the words the header shapes start with
    and (Java, C#) not `new` / `record`, which make the matcher drop the header *)
 Definition prefix_word (l : language) (t : token) : bool :=
@@ -72,12 +75,17 @@ Inductive items_of (l : language) : nat -> list token -> list fdesc -> Prop :=
 | io_nil off : items_of l off [] []
 | io_stmt off s r ds :
     simple_stmt s -> items_of l (off + length s) r ds -> items_of l off (s ++ r) ds
-| io_ctrl off kw cond o body c r ds1 ds2 :
-    is_keyword kw = true -> (cond = [] \/ groups cond) -> no_throws_kw cond ->
+(* a control statement or a declaration with a braced body that is not a function: a keyword, further words
+   (`class A extends B`, `else if`, `struct point`, `namespace x`), optional condition group(s), the body.
+   When a condition follows, the word right before its "(" is a keyword, not a name (`while (x)`, `catch (E e)`:
+   `name (...) {` would BE a function header). *)
+| io_ctrl off kw words cond o body c r ds1 ds2 :
+    is_keyword kw = true -> forallb word_tok words = true ->
+    (cond = [] \/ (groups cond /\ is_name (last (kw :: words) kw) = false)) -> no_throws_kw (words ++ cond) ->
     is_lbrace o = true -> is_rbrace c = true ->
-    items_of l (off + 1 + length cond + 1) body ds1 ->
-    items_of l (off + 1 + length cond + 1 + length body + 1) r ds2 ->
-    items_of l off (kw :: cond ++ o :: body ++ c :: r) (ds1 ++ ds2)
+    items_of l (off + 1 + length words + length cond + 1) body ds1 ->
+    items_of l (off + 1 + length words + length cond + 1 + length body + 1) r ds2 ->
+    items_of l off (kw :: words ++ cond ++ o :: body ++ c :: r) (ds1 ++ ds2)
 | io_func off pre hd nm_off hend_off o body c r ds1 ds2 :
     forallb (prefix_word l) pre = true -> fhead l hd nm_off hend_off ->
     is_lbrace o = true -> is_rbrace c = true ->
